@@ -109,11 +109,13 @@ def run_case(ck, desc):
     grid = np.unique(np.concatenate([np.round(lo), np.round(hi)]))
     grid = grid[grid >= 15]
     asc = np.concatenate([lo, hi])
-    for arr, label in ((asc, "f8"), (grid.astype("i8"), "i8"), (grid.astype("f4"), "f4"), (asc[::-1].copy(), "f8-descending"), (np.concatenate([asc[::-2], asc[0::2]]), "f8-drawdown-buildup")):
+    for arr, label in ((asc, "f8"), (grid.astype("i8"), "i8"), (grid.astype("f4"), "f4"), (asc[::-1].copy(), "f8-descending"), (np.concatenate([asc[::-2], asc[0::2]]), "f8-drawdown-buildup"), (np.asfortranarray(asc.reshape(2, -1)), "f8-2d-fortran")):
         pf = arr.astype(float)
         rs = np.asarray(oil.solution_gor_Standing(T, arr, *a), dtype=float)
         bo = np.asarray(oil.b_o_Standing(T, arr, *a), dtype=float)
-        if label in ("f8-descending", "f8-drawdown-buildup"):
+        if label == "f8-2d-fortran":
+            pf, rs, bo = pf.ravel(), rs.ravel(), bo.ravel()  # element [i, j] must belong to pressure [i, j]
+        if label in ("f8-descending", "f8-drawdown-buildup", "f8-2d-fortran"):
             # a depletion (or drawdown / build-up) history: judge the values in pressure order
             o = np.argsort(pf, kind="stable")
             pf, rs, bo = pf[o], rs[o], bo[o]
